@@ -157,7 +157,9 @@ size_t varintDeltaDecodeUnsigned(const uint8_t *input, size_t count,
         varintWidth deltaBytes = varintDeltaGet(p, &delta);
         p += deltaBytes;
 
-        current = (uint64_t)((int64_t)current + delta);
+        /* add in unsigned arithmetic: (int64_t)current + delta overflows
+         * (undefined) e.g. for {1ULL << 63, 0}; the wrapped sum is the value */
+        current = current + (uint64_t)delta;
         output[i] = current;
     }
 
